@@ -15,7 +15,7 @@ P = {
          "Every single and double fault placement within the property's hypothesis over the exchange of small files is executed against the real daemons; the oracle demands receiver success, sender success, byte-identical destination and termination of both tasks within the bound. Exhaustive for the enumerated layers; larger files and triples are sampled; an adaptive random dropper that keeps every retransmission counter below its limit adds long recoveries with many losses and progress in between.",
          "Hypothesis region is strictly inside the property's (F < limit, delays < min timer/2, Ti >= Ta+Tn). Trusts the simulator's link and virtual clock.", "DESIGN.md §5 C02"),
  "C03": ("fault_enumeration", "sim", "runtime monitor: task-lifetime guard (hook H3) + virtual clock; blackout at every emission index, termination bound checked per transaction",
-         "For every cut point of the exchange (blackout of either/both directions at every emission index) x mode x closure x NAK procedure, every transaction task must end within the bound B after the last PDU delivered to it, no loop may spin at one virtual instant, and the daemons must afterwards serve a fresh transfer and a Report. Enumerated cut points are complete for the reference exchanges; configurations are a grid; user cancels, heavy random loss, Prompt requests at random points (including while the receiver waits for the ACK of Finished) and sequences of 1-4 user primitives (Cancel/Suspend/Resume/Prompt/Report) at either entity from every point of the exchange are sampled, as are late copies of every PDU kind delivered to either entity after its Fault/Finished/Abandon indication in every end state (with per-condition handlers); a transaction is exempt from the bound only while the user holds it suspended or after a fault whose configured handler is ignore/suspend was actually declared.",
+         "For every cut point of the exchange (blackout of either/both directions at every emission index) x mode x closure x NAK procedure, every transaction task must end within the bound B after the last PDU delivered to it, no loop may spin at one virtual instant, and the daemons must afterwards serve a fresh transfer and a Report. Enumerated cut points are complete for the reference exchanges; configurations are a grid; user cancels, heavy random loss, Prompt requests at random points (including while the receiver waits for the ACK of Finished) and sequences of 1-4 user primitives (Cancel/Suspend/Resume/Prompt/Report) at either entity from every point of the exchange are sampled, as are late copies of every PDU kind delivered to either entity after its Fault/Finished/Abandon indication in every end state (with per-condition handlers); transports that stop taking PDUs for good (back-pressure instead of loss: the receiver's at any point, the sender's once its EOF has gone out) are sampled too; a transaction is exempt from the bound only while the user holds it suspended or after a fault whose configured handler is ignore/suspend was actually declared.",
          "Timeouts >= 1 s (zero-second timers are not a meaningful configuration). The bound B is generous by design; a hang never ends and is caught by the 3*B observation window.", "DESIGN.md §5 C03"),
  "C04": ("fault_enumeration", "sim", "runtime monitor over enumerated re-deliveries of every previously sent PDU (singles and pairs) into the window between the receiver's success indication and its end",
          "After the receiver's first success indication, each previously emitted PDU (and each pair) is delivered again while ACK(Finished) is withheld; the oracle checks the destination bytes, a non-idempotent append marker (requests executed exactly once), absence of integrity faults, and that sender success implies an earlier receiver success. Exhaustive for files of <= 3 segments, in acknowledged mode and in unacknowledged mode with closure; a second enumerated family loses every ACK(Finished) (optionally every Finished PDU) so that the receiver runs through its positive-ACK limit into the cancelled state, and re-delivers every first-pass PDU after that fault; a third family configures the receiver to ignore a checksum failure, corrupts one byte without CRC, loses the first Finished PDU and re-delivers a first-pass PDU (the sender must not report a success the receiver never reported). The window stays open when the receiving task vanished without ACK(Finished), a declared fault or a user cancel.",
@@ -30,7 +30,7 @@ P = {
          "Every PDU a real sending daemon hands to the link is checked against the source file on disk (bytes at offset, length caps, in-order first-pass tiling, retransmissions only for requested bytes and every requested in-file byte answered, true metadata/EOF, header identifiers and length). NAK shapes (overlapping, unsorted, empty, beyond EOF, long) are injected before/during/after the first pass by a scripted receiver; in a quarter of the runs the sending user suspends and resumes in the middle of the first pass; sparse sources of 2^32-2 .. 2^33 bytes check the size fields and the large-file flag of every PDU.",
          "NAK ranges beyond EOF are bounded to a few segments past the end. Trusts the simulator.", "DESIGN.md §5 C07"),
  "C08": ("exploration", "sim", "runtime monitor at the receiver's transport boundary with a scripted sender: every NAK compared with the harness's exact knowledge of delivered bytes; all loss subsets enumerated for small files",
-         "The harness plays the sender and knows exactly what it delivered; every NAK PDU emitted by the real receiver is checked for well-formedness, scope, size limit, and (after EOF) exact coverage of the missing bytes per round; deferred/immediate timing rules are checked on virtual timestamps. All subsets of lost segments/metadata for files of up to 6 segments are enumerated; late duplicates after the end re-create the receive transaction, which is judged for the deferred-procedure rule under a default configuration that differs from the peer's; in part of the runs the receiving user suspends and resumes the transaction between the first two deliveries (resuming is no reason to send a NAK under the deferred procedure).",
+         "The harness plays the sender and knows exactly what it delivered; every NAK PDU emitted by the real receiver is checked for well-formedness, scope, size limit, and (after EOF) exact coverage of the missing bytes per round; deferred/immediate timing rules are checked on virtual timestamps. All subsets of lost segments/metadata for files of up to 6 segments are enumerated; late duplicates after the end re-create the receive transaction, which is judged for the deferred-procedure rule under a default configuration that differs from the peer's; in part of the runs the receiving user suspends and resumes the transaction between the first two deliveries (resuming is no reason to send a NAK under the deferred procedure); a family of its own lets the EOF and a missing segment arrive during the suspension (the first NAK round after the resume asks for nothing already held); a fifth of the scripted senders use the large-file flag.",
          "Rounds are delimited by the harness's own deliveries; arrival orders are sampled beyond the enumerated core.", "DESIGN.md §5 C08"),
  "C09": ("exploration", "pure", "reference-model monitor: the real segment list against a bitset/interval-set model after every operation; bounded-exhaustive sequences + long random walks",
          "All sequences of up to 4 segments over 12 positions and up to 3 over 16 are enumerated; after every merge the returned count, the running total, is_complete for every n and gaps for every window are compared with the set-union model; random walks cover offsets up to 2^64-1.",
